@@ -175,10 +175,14 @@ another mapping.  The instance for `Val` is C15's `Tree.itemsToTree (Tree.items 
 class TreeAdd (V : Type) where
   treeAdd : List (String × V) → List (String × V) → Res (List (String × V))
 
-/-- `d + other` with the receiver's class: `Dict` (class 1) overrides `__add__` by `tree_update` (a recursive merge when
+/-- class tags whose `__add__` is `Dict.__add__`: 1 = `Dict` itself, 4 = a subclass of `Dict` (it inherits `__add__ = tree_update`;
+`Dict`'s own docstring uses such a subclass).  0 = plain dict, 2 = `dictattr`, 3 = a subclass of `dictattr` that is no `Dict`. -/
+def isDictLike (cls : Nat) : Bool := cls == 1 || cls == 4
+
+/-- `d + other` with the receiver's class: `Dict` and its subclasses (`isDictLike`) override `__add__` by `tree_update` (a recursive merge when
 both sides hold a dict under one key, C15); `dictattr` and its other subclasses copy and update -/
 def addC [TreeAdd V] (d : D V) (other : List (String × V)) : Res (D V) :=
-  if d.cls = 1 then (TreeAdd.treeAdd d.items other).map fun kvs => { d with items := kvs }
+  if isDictLike d.cls then (TreeAdd.treeAdd d.items other).map fun kvs => { d with items := kvs }
   else pure (add d other)
 
 /-- `d.relabel(**relabels)` (:272-273 with `relabel` :325): `type(self)(**{m.get(k, k) : v for k, v in items})` -/
